@@ -41,7 +41,6 @@ func run(rt *rapid.T) {
 	m = wmkit.New(db, func(f string, a ...any) {
 		rt.Fatalf("%s\nhistory: %s", fmt.Sprintf(f, a...), m.History())
 	})
-	m.RT = rt
 	pool := wmkit.GenKeyPool(rt, gen.Uniform(rt, 2, 10, "npool"))
 	unique := wmkit.UniqueValues(rt)
 	counter := 0
@@ -92,17 +91,7 @@ func run(rt *rapid.T) {
 	var kinds []string
 	for i := gen.Uniform(rt, 0, 6, "nchanges"); i > 0; i-- {
 		es := wmkit.Entries(m.Model)
-		switch gen.Pick(rt, []string{"new-key", "change-value", "change-weight", "same-value", "del-readd", "delete"}, "ckind") {
-		case "change-weight":
-			if len(es) > 0 {
-				e := gen.Pick(rt, es, "cw")
-				w := wmkit.GenWeight(rt)
-				if w == e.Weight {
-					w++
-				}
-				m.Reweigh(e, w)
-				kinds = append(kinds, "new-or-changed")
-			}
+		switch gen.Pick(rt, []string{"new-key", "change-value", "same-value", "del-readd", "delete"}, "ckind") {
 		case "new-key":
 			ki := gen.Uniform(rt, 0, len(pool)-1, "cki")
 			m.Update(pool[ki], wmkit.GenValue(rt, ki, &counter, unique))
